@@ -56,7 +56,10 @@ def setup():
     import json
     claimed = {c["property_id"] for c in json.load(open(os.path.join(fw.ROOT, "MANIFEST.json")))["checks"]}
     targets = sorted("Props/%s.vo" % p for p in claimed if os.path.exists(os.path.join(fw.COQ, "Props", p + ".v")))
-    ok, log = fw.coq_make(targets, timeout=3000)
+    with open(os.path.join(fw.BUILD, "coq.lock"), "w") if os.path.isdir(fw.BUILD) or not os.makedirs(fw.BUILD) else None as lk:
+        import fcntl
+        fcntl.flock(lk, fcntl.LOCK_EX)
+        ok, log = fw.coq_make(targets, timeout=3000, tag="all")
     print("setup: built %d property files ok=%s in %.1fs" % (len(targets), ok, time.time() - t0))
     if not ok:
         # a property whose proofs do not build is reported by its own check; setup itself only warms the build
